@@ -171,6 +171,27 @@ theorem C16_float_result_type :
     fResTy (.flt .float) (.flt .double) = some .double ∧ fResTy (.flt .double) (.flt .float) = some .double ∧
     fResTy (.flt .float) .int = some .float ∧ fResTy .int (.flt .double) = some .double ∧ fResTy .int .int = none := by decide
 
+/-- comparisons with a NaN operand: `==` (and `<`, `<=`, `>`, `>=`) false, `!=` true -- in particular `==` is NOT
+"neither less nor greater" -/
+theorem C16_float_nan_compare (op : FCmp) (x : FV) :
+    fcmp op .nan x = (op == .ne) ∧ fcmp op x .nan = (op == .ne) := by
+  constructor
+  · simp [fcmp, FV.isNan]
+  · cases x <;> simp [fcmp, FV.isNan]
+
+/-- unary minus flips the sign of a zero and is an involution; the two zeros compare equal -/
+theorem C16_float_neg_zero :
+    FV.neg (.zero false) = .zero true ∧ (∀ a : FV, a.neg.neg = a) ∧ fcmp .eq (.zero false) (.zero true) = true := by
+  refine ⟨rfl, fun a => ?_, by decide⟩
+  cases a with
+  | nan => rfl
+  | inf n => simp [FV.neg]
+  | zero n => simp [FV.neg]
+  | fin d => simp [FV.neg, Dy.neg]
+
+example : fcmp .lt (.fin ⟨-1, 1⟩) (.zero true) = true ∧ fcmp .ge (.inf false) (.fin ⟨7, 0⟩) = true ∧ fcmp .eq .nan .nan = false ∧
+    fcmp .ne .nan (.fin ⟨1, 0⟩) = true := by decide
+
 example : (fbin .float .add ⟨16777216, 0⟩ ⟨1, 0⟩).same ⟨16777216, 0⟩ ∧ (fbin .double .add ⟨16777216, 0⟩ ⟨1, 0⟩).same ⟨16777217, 0⟩ ∧
     (fbin .float .mul ⟨3, 1⟩ ⟨-5, 2⟩).same ⟨-15, 3⟩ ∧ (fIncDec .double true false ⟨1, 1⟩).2.same ⟨3, 1⟩ := by decide
 
